@@ -75,9 +75,9 @@ func TestMain(m *testing.M) {
 		evid.Spec{Name: "TestExhaustiveTables", Kind: "plain", QuickShards: 1, ThoroughShards: 1},
 		evid.Spec{Name: "TestPropLaws", Kind: "rapid", Quick: 20000, Thorough: 640000, QuickShards: 4, ThoroughShards: 16},
 		evid.Spec{Name: "TestPropPattern", Kind: "rapid", Quick: 4000, Thorough: 64000, QuickShards: 1, ThoroughShards: 4},
-		evid.Spec{Name: "TestPropModel", Kind: "rapid", Quick: 16000, Thorough: 480000, QuickShards: 8, ThoroughShards: 16},
+		evid.Spec{Name: "TestPropModel", Kind: "rapid", Quick: 16000, Thorough: 560000, QuickShards: 8, ThoroughShards: 16},
 	)
-	evid.Note("rule", "laws: one fresh object per case over the 38-symbol alphabet (IUPAC + . - [ ], both cases), lengths 1..1100 biased to 1,2,3,299-301,1023-1025, with/without qualities, with/without pairing_mismatches whose positions are biased to the window edges; checked against string-level references: rc, rc.rc, in-place rc, linear window, rc(sub)=sub(rc) mirrored, circular window in every caller form = window of s+s, its mirror law, Copy equality, source untouched. tables: every sequence of length 1 and 2 over the 38 symbols (obiseq), every IUPAC pattern of length 1-2 and generated patterns up to 64 positions with [..] groups (obiapat vs obiseq vs reference), every acgt word of length k=2,4 (obikmer canonical code classes = {w, rc(w)}). model: the case is a generated list of operations (New, Copy, RC in place / copy, Subsequence linear / circular, SetSequence, Write/WriteString/WriteByte(+qualities), SetQualities, SetQualities(nil), SetAttribute/DeleteAttribute, nested-map update, SetFeatures, Join, Recycle, GetSlice/RecycleSlice churn) run against real objects with recycled-slice poisoning on and against a value model; after every operation every live object's String, Qualities, annotations, features must equal its model. Non-trivial: laws = window strictly inside or wrapping with a mismatch position on a window edge or odd length >= 3; model = an object was mutated or recycled while a live object derived from it (or its source) was subsequently read. Distinct = hash of the whole case.")
+	evid.Note("rule", "laws: one fresh object per case over the 38-symbol alphabet (IUPAC + . - [ ], both cases), lengths 1..1100 biased to 1,2,3,299-301,1023-1025, with/without qualities, with/without pairing_mismatches whose positions are biased to the window edges; checked against string-level references: rc, rc.rc, in-place rc, linear window, rc(sub)=sub(rc) mirrored, circular window in every caller form = window of s+s, its mirror law, Copy equality, source untouched. tables: every sequence of length 1 and 2 over the 38 symbols (obiseq), every IUPAC pattern of length 1-2 and generated patterns up to 64 positions with [..] groups (obiapat vs obiseq vs reference), every acgt word of length k=2,4 (obikmer canonical code classes = {w, rc(w)}). model: the case is a generated list of operations (New, Copy, RC in place / copy, Subsequence linear / circular, SetSequence or Clear+Grow+Write, Write/WriteString/WriteByte(+qualities), SetQualities, SetQualities(nil), SetAttribute/DeleteAttribute, nested-map update, SetFeatures, Join, Recycle, GetSlice/RecycleSlice churn) run against real objects with recycled-slice poisoning on and against a value model; after every operation every live object's String, Qualities, annotations, features must equal its model. Non-trivial: laws = window strictly inside or wrapping with a mismatch position on a window edge or odd length >= 3; model = an object was mutated or recycled while a live object derived from it (or its source) was subsequently read. Distinct = hash of the whole case.")
 	evid.Main(m, "C07")
 }
 
